@@ -304,6 +304,15 @@ def check_graph(ctx, Network, A, directed, cid, rng, heavy=True):
     # a link attribute cannot exist on a network without links (igraph keeps
     # attributes per edge): the weighted variants need at least one link
     W = G.link_attr(rng, A, directed=directed, ties=ties) if A.any() else None
+    if W is not None and rng.random() < 0.2:
+        # some links of length / weight exactly 0 (distinct nodes at weighted
+        # distance 0; a zero is still a link)
+        z = rng.random(W.shape) < 0.3
+        if not directed:
+            z = np.triu(z, 1)
+            z = z | z.T
+        W = np.where(z, 0.0, W)
+        ctx.count("graphs_with_zero_weight_links")
     c = Case(ctx, Network, A, directed, cid, W)
     if c.net is None:
         return
@@ -438,18 +447,25 @@ def check_graph(ctx, Network, A, directed, cid, rng, heavy=True):
         if aplw is not None:
             c.check("average_path_length", "link_attribute", aplw, "w",
                     scalar=True, counter="weighted_compared")
-        if strongly:
+        # (1/d measures are undefined where distinct nodes are at weighted
+        #  distance 0)
+        offd = ~np.eye(n, dtype=bool)
+        zero_d = bool((DW[offd] == 0).any())
+        if strongly and not zero_d:
             c.check("closeness", "link_attribute", R.closeness(DW), "w",
                     counter="weighted_compared")
-        c.check("global_efficiency", "link_attribute",
-                R.global_efficiency(DW), "w", scalar=True,
-                counter="weighted_compared")
+        if not zero_d:
+            c.check("global_efficiency", "link_attribute",
+                    R.global_efficiency(DW), "w", scalar=True,
+                    counter="weighted_compared")
+        else:
+            ctx.count("undefined_skipped")
     if n >= 3 and A.any() and heavy:
         edgeless_sub = any(not np.delete(np.delete(A, i, 0), i, 1).any()
                            for i in range(n))
         cls = "edgeless-subgraph" if edgeless_sub else ""
         c.check("local_vulnerability", cls, R.local_vulnerability(A))
-        if W is not None:
+        if W is not None and not (W[A != 0] == 0).any():
             c.check("local_vulnerability",
                     ",".join(p for p in ("link_attribute", cls) if p),
                     R.local_vulnerability(A, W), "w",
